@@ -9,3 +9,18 @@
 pub fn mls_query_at_evenly_shared_endpoint(ends: u8) -> bool {
     ends > 0 && ends % 2 == 0
 }
+
+/// C01: a MultiLineString with at least one member that is open on its own, yet every member end
+/// point is shared by an even number of open members (the members chain into closed loops), so
+/// that the mod-2 boundary is empty although no member is "closed".
+#[inline]
+pub fn mls_open_members_forming_closed_loops(any_member_open: bool, some_end_point_has_odd_multiplicity: bool) -> bool {
+    any_member_open && !some_end_point_has_odd_multiplicity
+}
+
+/// C14: a closed 3-ring whose three vertices are distinct and collinear (zero area; the only
+/// overlapping edges are adjacent ones, which the pairwise self-intersection test skips).
+#[inline]
+pub fn ring_all_vertices_collinear_and_distinct(a: crate::oracle::P, b: crate::oracle::P, c: crate::oracle::P) -> bool {
+    a != b && b != c && c != a && crate::oracle::orient(a, b, c) == 0
+}
